@@ -160,7 +160,13 @@ def run_check(mod, tier, seed, jobs=None, n_runs=None, chunk=None, per_run_timeo
         print(f"KNOWN-FINDING: property={prop} {f['what']} (key={key}, {len(rs)} runs)")
     wall = time.time() - t0
     done = [r for r in results if r is not None]
-    cov = mod.evidence(done, tier)
+    try:
+        cov = mod.evidence(done, tier)
+    except Exception:  # the summary must never hide the violations found: report them, flag the summary as a harness error
+        import traceback
+
+        cov = {"evaluations": len(done), "evidence_error": traceback.format_exc()[-1200:]}
+        harness_errors.append("evidence summary failed: " + traceback.format_exc()[-400:])
     cov.setdefault("evaluations", len(done))
     if not cov.get("samples") and done:
         # always show at least one actual case of this run (whatever the module's own sample filter selected)
